@@ -136,3 +136,13 @@ VARIANTS += [
            [(CB, "def as_integer(value):", "_REGISTRY = []\n\n\ndef registered(fn):\n    _REGISTRY.append(fn)\n    return fn\n\n\n@registered\ndef as_integer(value):")],
            ("C07", "C16")),
 ]
+
+VARIANTS += [
+    # ---- hunt wave 8: the memo keys every numeric type (repo fix b00fc24)
+    fire("r12-memo-key-builtin-numbers-only",
+         [(CB, "        elif isinstance(obj, Number):\n", "        elif isinstance(obj, (int, float)):\n")],
+         ("*", "GateMemoizer:memo-key:numeric-types"), ("C07", "C18", "C01")),
+    silent("r12-memo-key-real-and-complex",
+           [(CB, "        elif isinstance(obj, Number):\n", "        elif isinstance(obj, (Real, Complex)):\n")],
+           ("C07", "C18")),
+]
